@@ -1147,6 +1147,34 @@ theorem sor_exit_is_step (I : BPIn ℝ) (f0n : ℝ) : ∀ (fuel k : ℕ) (phi m1
       | zero => simp only [sorLoop, Option.some.injEq] at ho; exact ⟨phi, ho.symm⟩
       | succ f' => exact ih _ _ _ _ _ o ho (by omega)
 
+/-- **exit of the over-relaxed iteration**: whatever it returns is either the result of the pass budget running out (`k` has advanced by the
+whole budget) or the potential of a Newton update `step I φ_prev` taken on a pass that is not an extrapolation pass (`k % 5 ≠ 0`) and for which
+*both* stopping measures are below `10⁻¹⁰`: the relative change `‖φ' − φ₋₁‖/‖φ'‖` and the relative residual `‖A φ_prev − b(φ_prev)‖/‖f₀‖` -/
+theorem sor_converged_exit (I : BPIn ℝ) (f0n : ℝ) : ∀ (fuel k : ℕ) (phi m1 m2 : List ℝ) (last : Option (StepOut ℝ)),
+    (sorLoop I f0n fuel k phi m1 m2 last).2.2 = k + fuel - 1 ∨
+    ∃ phiPrev mPrev kk, kk % 5 ≠ 0 ∧
+      (sorLoop I f0n fuel k phi m1 m2 last).1 = (step I phiPrev).phi ∧
+      (sorLoop I f0n fuel k phi m1 m2 last).2.1 = some (step I phiPrev) ∧
+      normL (List.zipWith (· - ·) (step I phiPrev).phi mPrev) / normL (step I phiPrev).phi < 1e-10 ∧
+      normL (targetFun none I.ldu phiPrev (step I phiPrev).b) / f0n < 1e-10 := by
+  intro fuel
+  induction fuel with
+  | zero => intro k phi m1 m2 last; left; simp [sorLoop]
+  | succ f ih =>
+    intro k phi m1 m2 last
+    rw [sorLoop]
+    split_ifs with h5 hc
+    · rcases ih (k + 1) _ _ m1 (some (step I phi)) with h | h
+      · left; rw [h]; omega
+      · right; exact h
+    · right
+      refine ⟨phi, m1, k, h5, rfl, rfl, ?_, ?_⟩
+      · have := hc.1; norm_num at this ⊢; exact this
+      · have := hc.2; norm_num at this ⊢; exact this
+    · rcases ih (k + 1) _ _ m1 (some (step I phi)) with h | h
+      · left; rw [h]; omega
+      · right; exact h
+
 /-! ## the returned iterate of the ion-free e-beam problem -/
 
 theorem zipWith3_getElem {β γ δ ε : Type} (f : β → γ → δ → ε) : ∀ (a : List β) (b : List γ) (c : List δ) (i : ℕ)
